@@ -252,7 +252,7 @@ def snapshot(wd):
             pending=rib.pending(),
             queued=sorted(k2.hex() for k2 in rib._new_nlri) if hasattr(rib, '_new_nlri') else rib.pending(),
             fsm=p.fsm.name(),
-            teardown=p._teardown,
+            teardown=getattr(p, '_teardown', None),
         )
     out['peers'] = peers
     out['sockets'] = [(s.index, s.connected, s.closed, len(s.tx)) for s in wd.sockets]
